@@ -172,6 +172,13 @@ def run(ctx):
     binary = H.build(ctx.work, "asan")
     scns = make_scenarios(ctx, ctx.n(600, 15000))
     run_monitored(ctx, binary, scns, monitor, tag="peer")
+    # the same histories on size-optimised builds of both compilers and with plain char unsigned: behaviour must not depend
+    # on the optimisation level, the compiler or the ABI's choice for char
+    os_gcc, os_clang, uchar = H.build_many(ctx.work, [dict(flavour="plain-os"), dict(flavour="plain-clang-os"), dict(flavour="asan-uchar")])
+    third = max(1, len(scns) // 3)
+    run_monitored(ctx, os_gcc, scns[:third], monitor, tag="peer-os")
+    run_monitored(ctx, os_clang, scns[third:2 * third], monitor, tag="peer-clang-os")
+    run_monitored(ctx, uchar, scns[2 * third:], monitor, tag="peer-uchar")
     rep.need("frames_delivered", rep.counters.get("frames_delivered", 0), 1000)
     rep.need("emitter_address_changed_mid_session", rep.counters.get("emitter_address_changed_mid_session", 0), 30)
     rep.need("frames_delivered_to_the_mappers_bridge", rep.counters.get("frames_delivered_to_the_mappers_bridge", 0), 100)
